@@ -362,3 +362,10 @@ Proof.
       * apply Ui; [assumption | split; assumption].
       * apply Ub0; [apply blocks_complete; assumption | assumption].
 Qed.
+
+(* distinct block ids inside the grid have distinct offsets (the Philox stream id of cubed.random) *)
+Theorem distinct_blocks_distinct_streams : forall root nb b b', Forall2 lt b nb -> Forall2 lt b' nb ->
+  b <> b' -> root + ravel nb b <> root + ravel nb b'.
+Proof.
+  intros root nb b b' Hb Hb' Hne E. apply Hne. apply (ravel_injective nb); try assumption. lia.
+Qed.
